@@ -379,3 +379,20 @@ def run(repo, rep, tier):  # noqa: F811 -- round-5 shape rules appended to the r
 _ADDR5B = ' R19.9: is_dataclass_dict_mixin recognises the library mixin by its fully qualified name, so hooks declared on a user class that shares the bare name are still taken as declared. R19.10: every rendered call of a generated helper that is defined with the pluggable flag parameters passes get_[un]pack_method_flags() (context and the other flags reach the values below a union / literal / named tuple / typed dict helper at every depth).'
 EXPLANATION += _ADDR5B
 LEVEL_TEXT += _ADDR5B
+
+
+_run_before_r6b = run
+
+
+def run(repo, rep, tier):  # noqa: F811 -- round-6 remedies (core/round6.py)
+    _run_before_r6b(repo, rep, tier)
+    if getattr(rep, "borrowed", False):
+        return
+    from ..core import round6 as _r6b
+    _r6b.flag_lists_owned(repo, rep, "R19.11")
+    _r6b.dispatcher_paths_agree(repo, rep, "R13.12")
+
+
+_ADDR6C = ' R19.11: `<flag>=<flag>` forwarding lists are built in get_pack_method_flags / get_unpack_method_flags only. Borrowed: R13.12.'
+EXPLANATION += _ADDR6C
+LEVEL_TEXT += _ADDR6C
